@@ -16,6 +16,7 @@ from common import Report, ToolError, check_action_coverage, log, run_cases, run
 def render(lines, spelling, rnd):
     out = []
     depth = 0
+    base = rnd.choice(["", "", "  ", "\t"]) if spelling == "nl" else rnd.choice(["", "    "])   # the whole script may be indented
     for i, l in enumerate(lines, 1):
         k = l["k"]
         if k in ("ei", "el", "fi", "dn"):
@@ -41,7 +42,7 @@ def render(lines, spelling, rnd):
             t = "for v in " + " ".join("w%d" % j for j in range(1, l["n"] + 1)) + ("; do" if spelling == "semi" else "")
         elif k == "dn":
             t = "done"
-        out.append(ind + t)
+        out.append(base + ind + t)
         if spelling == "nl" and rnd.random() < 0.15:
             out.append("")
         if k in ("if", "ei", "el", "wh", "fo"):
